@@ -30,6 +30,9 @@ theorem lookup_before_guard_witness :
     iter [.load, .ifVarNil 1, .create, .useVar] true ≠ none ∧
     safe [.load, .ifVarNil 1, .create, .useVar] = false := by decide
 
+/-- non-vacuity of `safe`: the guard-then-use shape of addObjects -/
+example : safe [.ifMapNil 1, .create, .useMap, .useMap] = true := by decide
+
 theorem iter_of_safe {steps : List Step} (h : safe steps = true) (p : Bool) :
     ∃ s, iter steps p = some s ∧ s.present = true := by
   unfold safe at h
